@@ -20,8 +20,69 @@ class Item:
         return self.prog.src()
 
 
-def from_text(text, fname="f", tags=(), name="", bounds=None, small=False):
-    return Item(parse(text), fname, tags, name, bounds, small)
+class TextItem(Item):
+    """a family member given as text that our own parser does not (need to) understand completely: only the signature
+    (structs, globals, exported entry point) is extracted; src() returns the text verbatim"""
+    __slots__ = ("text",)
+
+    def src(self):
+        return self.text
+
+
+def from_text(text, fname="f", tags=(), name="", bounds=None, small=False, verbatim=False):
+    if not verbatim:
+        return Item(parse(text), fname, tags, name, bounds, small)
+    it = TextItem(skeleton(text), fname, tags, name, bounds, small)
+    it.text = text if text.endswith("\n") else text + "\n"
+    return it
+
+
+def skeleton(text):
+    """structs, globals and function signatures of a program text (bodies dropped)"""
+    import re
+    from ..nslref.parse import Parser, ParseError
+    structs, globals_, funcs = [], [], []
+    known = {}
+    for m in re.finditer(r"struct\s+(\w+)\s*\{([^}]*)\}", text):
+        fields = []
+        for fm in re.finditer(r"([\w\[\]]+)\s+(\w+)\s*;", m.group(2)):
+            fields.append((_type(fm.group(1), known), fm.group(2)))
+        st = A.Struct(m.group(1), fields)
+        structs.append(st)
+        known[st.name] = st
+    body = re.sub(r"struct\s+\w+\s*\{[^}]*\}", "", text)
+    depth, top = 0, []
+    for ch in body:                      # top-level text only (outside function bodies)
+        if ch == "{":
+            depth += 1
+        elif ch == "}":
+            depth -= 1
+            top.append(";")
+        elif depth == 0:
+            top.append(ch)
+    toptext = "".join(top)
+    for m in re.finditer(r"(export\s+)?function\s+(\w+)\s*\(([^)]*)\)\s*->\s*([\w\[\]]+)", toptext):
+        params = []
+        for part in [x.strip() for x in m.group(3).split(",") if x.strip()]:
+            bits = part.replace("__optional", "").split()
+            if len(bits) == 2:
+                params.append((_type(bits[0], known), bits[1]))
+        funcs.append(A.Func(m.group(2), params, _type(m.group(4), known), A.Block([]), exported=bool(m.group(1))))
+    rest = re.sub(r"(export\s+)?function\s+\w+\s*\([^)]*\)\s*->\s*[\w\[\]]+", "", toptext)
+    for m in re.finditer(r"([\w\[\]]+)\s+(\w+)\s*;", rest):
+        if m.group(1) not in ("import",):
+            globals_.append((_type(m.group(1), known), m.group(2)))
+    return A.Program(funcs, globals_, structs)
+
+
+def _type(s, known):
+    import re
+    m = re.match(r"(\w+)((\[\d+\])*)$", s)
+    base, dims = m.group(1), [int(d) for d in re.findall(r"\[(\d+)\]", m.group(2))]
+    if base in ("matrix3x3", "matrix4x4"):
+        base = "float" + base[6:]
+    t = ("struct", base) if base in known else base
+    return ("arr", t, tuple(dims)) if dims else t
 
 
 def has_nonlinear(prog):
